@@ -447,12 +447,21 @@ func ListForm(h [][2]string, ignore map[string]bool) map[string][]string {
 		if ignore[kv[0]] {
 			continue
 		}
+		if SingletonHeader[kv[0]] {
+			out[kv[0]] = append(out[kv[0]], kv[1])
+			continue
+		}
 		for _, el := range strings.Split(kv[1], ",") {
 			out[kv[0]] = append(out[kv[0]], strings.Trim(el, " \t"))
 		}
 	}
 	return out
 }
+
+// SingletonHeader lists fields whose value is not a comma-separated list (dates contain a comma,
+// Set-Cookie must never be folded): their lines are compared as they are.
+var SingletonHeader = map[string]bool{"date": true, "set-cookie": true, "last-modified": true, "expires": true, "if-modified-since": true, "if-unmodified-since": true,
+	"location": true, "content-type": true, "authorization": true, "user-agent": true, "referer": true, "server": true, "retry-after": true, "cookie": true, "etag": true, "age": true, "origin": true}
 
 // SameListForm reports whether a and b are equal maps of ordered element lists.
 func SameListForm(a, b map[string][]string) bool {
